@@ -444,6 +444,11 @@ def main():
         log("NOTE outside the domain of C14 (not a violation): %s: %s  e.g. %s" %
             (w, m, ex["detail"].get("go") or ex["detail"].get("fen")))
 
+    # supplementary, unbounded: TLAPS proves soft <= hard <= cap for the abstract shape of the formula, for all naturals
+    pr = vlib.tlaps("TimeAllocProof", chk.outdir)
+    chk.cov["tlaps_limit_inequalities"] = {"proved": pr[0], "total": pr[1]} if pr else "not-run"
+    if pr and pr[0] != pr[1]:
+        raise ToolError("TLAPS no longer proves TimeAllocProof: %s" % (pr,))
     chk.cov.update({
         "states": states, "transitions": transitions,
         "traces_validated_against_impl": len(traces) + len(rps),
